@@ -130,7 +130,7 @@ func scan(p *packages.Package, f *ast.File, rel string) []Site {
 						path := pn.Imported().Path()
 						name := sel.Sel.Name
 						switch {
-						case path == "sort" && (name == "Slice" || name == "Sort" || name == "SliceStable" || name == "Stable"):
+						case path == "sort" && (name == "Slice" || name == "Sort" || name == "SliceStable" || name == "Stable" || name == "Strings" || name == "Ints" || name == "Float64s"):
 							add("sort."+name, x, exprString(p.Fset, x.Args[0]))
 						case (path == "slices" || path == "golang.org/x/exp/slices") && strings.HasPrefix(name, "Sort"):
 							add("slices."+name, x, exprString(p.Fset, x.Args[0]))
